@@ -234,7 +234,9 @@ def standard_check(ctx, prop, plan, monitors, theorems, corpus_dirs=(), rule="",
     if not gen_tables(ctx):
         return ctx.finish()
     ok, _ = ctx.lean_obligations(prop, extra_modules=extra_modules)
-    if ok:
+    # a failed obligation is reported by finish(); the search for a concrete failing input goes on
+    # whenever the executable model still builds
+    if ok or ctx.oracle_available():
         if thorough:
             plan = [(f, c * 5, w) for (f, c, w) in plan]
         result = run_families(ctx, plan, corpus_dirs)
